@@ -3,7 +3,10 @@
 Twin construction per call: bandit A has a binarizer and is fed raw rewards; bandit B has none and is fed
 binarizer(decision, reward) computed by the harness with the binarizer *in force at that call* (after
 add_arm(arm, new_binarizer) the new one).  Same seed, same call sequence, outputs compared bit-for-bit at
-every query."""
+every query.
+
+As built: Extras: rating-like rewards (repeated (decision, reward) pairs across an add_arm), a few 24000-31000-row batches with n_jobs in {2,3,-1}.
+"""
 from mon import env  # noqa: F401
 import copy
 
